@@ -218,6 +218,47 @@ def run_builtin(job, res):
                            float((np.abs(got - want) / sc).max()) <= 1e-9, "cov/attached-to-other-state",
                            f"{start}->{tgt}: relative deviation {float((np.abs(got - want) / sc).max()):.3g} from a covariance built on the state itself",
                            {"start": start, "target": tgt, "kep": kep_})
+    # ---- ways of SUPPLYING the covariance: the frame by name (the constructor's documented argument type) or as a Frame object, the
+    # matrix as a float array, nested lists, an integer-valued array, or another Cov object (which must stay independent)
+    if job.get("follow"):
+        ci = np.diag([400, 900, 100, 4, 1, 9]) + 3 * np.ones((6, 6), dtype=int)          # integer-valued, symmetric, positive definite
+        for start in ("EME2000", "GCRF", "TOD"):
+            sv = StateVector(keps[0], DATE, "keplerian", "EME2000").copy(frame=start, form="cartesian")
+            for tgt in ("QSW", "TNW", "ITRF", "MOD"):
+                refc = Cov(sv, ci.astype(float), fr.get_frame(start))
+                refc.frame = tgt
+                want = np.asarray(refc, float)
+                sc = np.sqrt(np.outer(np.diag(want), np.diag(want)))
+                styles = {"frame given by name": lambda: Cov(sv, ci.astype(float), start),
+                          "matrix as nested lists of floats": lambda: Cov(sv, ci.astype(float).tolist(), fr.get_frame(start)),
+                          "integer-valued array": lambda: Cov(sv, ci, fr.get_frame(start)),
+                          "nested lists of integers, frame by name": lambda: Cov(sv, ci.tolist(), start)}
+                for how, make in styles.items():
+                    res["evaluations"] += 1
+                    try:
+                        c = make()
+                        before = np.asarray(c, float).copy()
+                        c.frame = tgt
+                        got = np.asarray(c, float)
+                        dev = float((np.abs(got - want) / sc).max())
+                        okv = float(np.abs(before - ci).max()) <= 1e-9 and dev <= 1e-9
+                        msg = f"holds {before[0, 0]!r} for {ci[0, 0]} before conversion; after conversion relative deviation {dev:.3g}"
+                    except Exception as e:
+                        okv, msg = False, f"{type(e).__name__}: {e}"
+                    clause("however the covariance is supplied (frame by name or object, floats / integers, arrays / lists) it is that matrix and converts as R C R^T",
+                           okv, "cov/supplied[" + how.split(",")[0] + "]", f"{start}->{tgt}, {how}: {msg}", {"start": start, "target": tgt, "style": how})
+                # built from another Cov: the two objects are independent
+                res["evaluations"] += 1
+                c1 = Cov(sv, ci.astype(float), fr.get_frame(start))
+                c2 = Cov(sv, c1, c1.frame)
+                c2.frame = tgt
+                c2.frame = "ITRF" if tgt != "ITRF" else "TNW"
+                untouched = float(np.abs(np.asarray(c1, float) - ci).max()) <= 1e-9 and c1.frame == fr.get_frame(start)
+                c1.frame = tgt
+                dev = float((np.abs(np.asarray(c1, float) - want) / sc).max())
+                clause("a covariance built from another covariance object shares nothing with it", untouched and dev <= 1e-9, "cov/built-from-cov",
+                       f"{start}->{tgt}: source {'changed' if not untouched else 'kept'} while the new object was converted; its own conversion deviates by {dev:.3g}",
+                       {"start": start, "target": tgt})
     res["nontrivial"] += [json.dumps(["builtin"] + [str(x) for x in k]) for k in sorted(kinds, key=str)]
 
 
